@@ -212,7 +212,9 @@ def build_argv(rng, rec, tmp, idx, allow_files=True, in_process=True):
                      '{{"id": {id}, "start": "{start}", "end": "{end}"}}', "{id} {start} {end} @{timestamp:<30}|", "{timestamp!s} # {id} {duration}",
                      "d\u00e9but {id} \u2192 {start} \u00e0 {end}", "\u4e8b\u4ef6{id} \u2014 {duration}",
                      # an escape sequence AND non-ASCII text in one template; a template that begins with "@"
-                     "{id}\\t{start} \u2192 {end}", "n\u00b0{id}\\t{duration} s", "@{id} {start} {end}", "@det {id}: {duration}"))
+                     "{id}\\t{start} \u2192 {end}", "n\u00b0{id}\\t{duration} s", "@{id} {start} {end}", "@det {id}: {duration}",
+                     # width / alignment specifications on the fields
+                     "{id:>4} {start:>14};{end:<14};{duration:^13};", "{id:<3};{start:>16} {end}"))
     if pf is not None:
         argv += ["--printf", pf]
     meta["printf"] = pf or "{id} {start} {end}"
@@ -355,7 +357,7 @@ def run_in_process(argv, stdin_bytes, pipe_rng=None):
     return res
 
 
-def run_subprocess(argv, stdin_bytes, tty=False):
+def run_subprocess(argv, stdin_bytes, tty=False, keep_open=False):
     env = dict(os.environ, PYTHONPATH=os.environ.get("VERIF_REPO", "/repo"), PYTHONDONTWRITEBYTECODE="1", PYTHONIOENCODING="utf-8")
     master = None
     if tty:
@@ -398,6 +400,27 @@ def run_subprocess(argv, stdin_bytes, tty=False):
                 if pauses < 25 and rng.random() < 0.3:
                     pauses += 1
                     _time.sleep(0.004)
+        if keep_open:
+            # a live producer (rec, sox, a socket): it has sent what it has and stays connected.  A tool that was told to stop
+            # after -M seconds exits all the same.  (Wall clock only as a watchdog: the verdict is the causal test that follows -
+            # the child ends as soon as, and only when, the producer hangs up.)
+            try:
+                p.wait(timeout=90)
+            except subprocess.TimeoutExpired:
+                try:
+                    p.stdin.close()
+                except OSError:
+                    pass
+                p.stdin = None
+                try:
+                    p.wait(timeout=60)
+                except subprocess.TimeoutExpired:
+                    p.kill()
+                    p.communicate()
+                    return {"inconclusive": "child exceeded 150 s"}
+                out, err = p.communicate()
+                return {"rc": p.returncode, "stdout": out.decode("utf-8", "replace"), "stderr": err.decode("utf-8", "replace"), "threads_left": [],
+                        "waited_for_the_producer_to_hang_up": True}
         try:
             p.stdin.close()
         except OSError:
@@ -423,6 +446,7 @@ def parse_line(line, template):
     # str.format semantics: {{ and }} are literal braces; {timestamp...} is wall-clock text we cannot predict
     parts = re.split(r"(\{\{|\}\}|\{[a-z]+(?:![rsa])?(?::[^{}]*)?\})", tpl)
     rx = ""
+    widths = {}
     for part in parts:
         if part == "{{":
             rx += re.escape("{")
@@ -430,12 +454,25 @@ def parse_line(line, template):
             rx += re.escape("}")
         elif re.fullmatch(r"\{(id|start|end|duration)\}", part):
             rx += f"(?P<{part[1:-1]}>[0-9:.|]+)"
+        elif re.fullmatch(r"\{(id|start|end|duration):[<>^]\d+\}", part):
+            # an alignment + width specification: the field is the rendered value padded with spaces to that width
+            name, _, spec = part[1:-1].partition(":")
+            widths[name] = int(spec[1:])
+            rx += f"(?P<{name}>" + {">": " *[0-9:.|]+", "<": "[0-9:.|]+ *", "^": " *[0-9:.|]+ *"}[spec[0]] + ")"
         elif part.startswith("{timestamp"):
             rx += r"(?P<timestamp>[0-9/: .]+?)\s*"
         else:
             rx += re.escape(part)
     mo = re.fullmatch(rx, line)
-    return mo.groupdict() if mo else None
+    if not mo:
+        return None
+    out = mo.groupdict()
+    for name, w in widths.items():
+        raw = out[name]
+        out[name] = raw.strip()
+        if len(raw) != max(w, len(raw.strip())):
+            return None  # not padded to the requested width
+    return out
 
 
 def check_time(text, x, tf):
@@ -574,6 +611,32 @@ def bad_time_format_run(ctx, rng, tmp):
         ctx.violation("unknown-time-directive-accepted-by-cli", {"case": {"argv": ["btf.wav", "--time-format", "%h:%m:%q"]}, "rc": res["rc"]})
 
 
+def live_producer_run(ctx, rng, tmp):
+    """standard input from a producer that stays connected after it has sent more than -M seconds of audio"""
+    for _ in range(200):
+        rec = make_recording(rng)
+        argv, kw, meta = build_argv(rng, rec, tmp, 20000, allow_files=False)
+        total_s = len(rec["data"]) / (rec["rate"] * rec["width"] * rec["channels"])
+        if meta["kind"] == "stdin" and len(rec["data"]) <= 48000 and total_s > 0.2 and not meta["quiet"]:
+            break
+    else:
+        return
+    if kw["max_read"] is None or kw["max_read"] >= total_s:
+        for opt in ("-M", "--max-read"):
+            if opt in argv:
+                del argv[argv.index(opt) : argv.index(opt) + 2]
+        kw["max_read"] = round(total_s * rng.choice((0.3, 0.5, 0.8)), 3)
+        argv += ["-M", repr(kw["max_read"])]
+    res = run_subprocess(argv, rec["data"], keep_open=True)
+    ctx.count("cli_children_whose_producer_stays_connected")
+    if res.get("waited_for_the_producer_to_hang_up"):
+        ctx.case(("cli-live-producer", tuple(argv)), True)
+        ctx.violation("command-line-exits-only-when-the-producer-hangs-up", {"case": {"argv": argv, "input": "stdin, producer stays connected", "nbytes": len(rec["data"])},
+                                                                               "stdout": res["stdout"][:300]})
+        return
+    check_cli(ctx, rec, argv, kw, meta, res, "subprocess")
+
+
 def run_shard(ctx, upto=None):
     conf = TIERS[ctx.tier]
     tmp = tempfile.mkdtemp(prefix="vf-c15-")
@@ -590,6 +653,8 @@ def run_shard(ctx, upto=None):
             if on_tty:
                 ctx.count("cli_children_with_a_terminal_as_stdout")
             check_cli(ctx, rec, argv, kw, meta, res, "subprocess")
+        if upto is None and (ctx.shard == 1 or (ctx.tier == "thorough" and ctx.shard % 4 == 1)):
+            live_producer_run(ctx, ctx.rng("live"), tmp)
         rng = ctx.rng("cli")
         if ctx.shard == 0:
             bad_time_format_run(ctx, rng, tmp)
@@ -634,7 +699,7 @@ def replay(ctx, case):
 
 def inconclusive(merged, tier):
     c = merged["counters"]
-    need = ["cli_runs_in_process", "cli_runs_subprocess", "lines_checked", "times_checked", "quiet_runs", "j_without_O_runs",
+    need = ["cli_children_whose_producer_stays_connected", "cli_runs_in_process", "cli_runs_subprocess", "lines_checked", "times_checked", "quiet_runs", "j_without_O_runs",
             "O_files_checked", "j_files_checked", "o_dirs_checked", "formatter_values", "formatter_bad_directives",
             "bad_time_format_runs", "input_raw", "input_wav", "input_stdin", "stdin_fed_through_a_real_pipe", "cli_children_with_a_terminal_as_stdout", "runs_with_unencodable_save_stream_format"]
     out = [f"monitor never observed {k}" for k in need if c.get(k, 0) == 0]
